@@ -135,7 +135,7 @@ func gen(t *rapid.T, o GenOpts) Generated {
 	// schema
 	nEdb := rapid.IntRange(1, 3).Draw(t, "nEdb")
 	for i := 0; i < nEdb; i++ {
-		ar := rapid.SampledFrom([]int{1, 1, 2, 2, 2, 3, 0}).Draw(t, "edbArity")
+		ar := rapid.SampledFrom([]int{1, 1, 2, 2, 2, 3, 0, 1, 2, 2, 3, 5}).Draw(t, "edbArity")
 		cols := ""
 		for c := 0; c < ar; c++ {
 			cols += string(rapid.SampledFrom([]byte("nnnna")).Draw(t, "edbCol"))
@@ -148,7 +148,7 @@ func gen(t *rapid.T, o GenOpts) Generated {
 		colTypes = []byte("nnnnnaapl")
 	}
 	for i := 0; i < nIdb; i++ {
-		ar := rapid.SampledFrom([]int{1, 1, 2, 2, 2, 3, 0}).Draw(t, "idbArity")
+		ar := rapid.SampledFrom([]int{1, 1, 2, 2, 2, 3, 0, 1, 2, 2, 3, 5}).Draw(t, "idbArity")
 		cols := ""
 		for c := 0; c < ar; c++ {
 			cols += string(rapid.SampledFrom(colTypes).Draw(t, "idbCol"))
@@ -233,7 +233,7 @@ func genRule(t *rapid.T, o GenOpts, schema []PredInfo, h PredInfo, exitRule bool
 	}
 	var body []Lit
 	// positive atoms
-	nPos := rapid.SampledFrom([]int{1, 1, 2, 2, 2, 3}).Draw(t, "nPos")
+	nPos := rapid.SampledFrom([]int{1, 1, 2, 2, 2, 3, 1, 2, 2, 3, 3, 4}).Draw(t, "nPos")
 	negFront := o.NegFront && o.Neg && len(lower) > 0 && rapid.IntRange(0, 7).Draw(t, "negFront") == 0
 	if negFront {
 		nPos = rapid.SampledFrom([]int{2, 3, 3, 4}).Draw(t, "nPosNegFront")
